@@ -162,6 +162,11 @@ def execute(p, chooser):
                 obs["futs"][f._verif_id] = (i, f)
                 obs["jof"][i] = f._verif_id
             det.emit("ret", "submit", 0)
+            # user done-callbacks on the poll future (C02's family only; Model/Poll.v has none)
+            for c in range(p.get("cbs", {}).get(str(i), 0)):
+                def cb(fut, c=c, j=f._verif_id):
+                    obs.setdefault("cb_calls", {}).setdefault(j, []).append((c, fut._state, fut._result, fut._exception, det.me().name))
+                f.add_done_callback(cb)
 
         def do_cancel(i):
             det.wait_until(lambda: i in futs)
